@@ -54,6 +54,9 @@ func (s *LocalBackend) Upload(ctx context.Context, key string, data []byte, opts
 	if err != nil {
 		return fmtErrorf("failed to localize key %q as a filesystem path: %w", key, err)
 	}
+	if name == "." {
+		return fmtErrorf("key %q does not name an object inside the backend directory", key)
+	}
 	path := filepath.Join(s.dir, name)
 	if err := durable.MkdirAll(filepath.Dir(path), 0755); err != nil {
 		return fmtErrorf("failed to create directory %q: %w", filepath.Dir(path), err)
